@@ -226,7 +226,7 @@ struct C12 : Scenario {
 	}
 	// evaluates one faulted archive; returns false on violation
 	bool eval(const Plan &p, const Bytes &arch, size_t hstart, int kind_idx, const std::string &what, RunResult &res,
-	          Plan *narrowed, const Patch *q, int64_t trunc, uint64_t &nfail, uint64_t &npass, Fnv &acc) {
+	          Plan *narrowed, const Patch *q, int64_t trunc, uint64_t &nfail, uint64_t &npass, Fnv &acc, int64_t afail = -1) {
 		static const char *kinds[] = {"FILE_SEEK", "FILE_PIPE", "FILE_HALFSEEK", "CB_SKIP", "CB_NOSKIP"};
 		size_t n = trunc >= 0 ? std::min<size_t>((size_t) trunc, arch.size()) : arch.size();
 		std::string why = n > hstart ? integrity_fail(arch.data() + hstart, n - hstart) : "";
@@ -236,6 +236,7 @@ struct C12 : Scenario {
 		t.trunc = trunc;
 		DriveOpts o;
 		o.budget = 4096 + 8 * arch.size();
+		if (afail >= 0) { o.ledger = true; o.fail_alloc = afail; }
 		DriveOut d = drive_reader(t, arch, o);
 		bool returned = d.obs.size() > 1 && !d.obs[1].hdr.null;
 		bool later = (d.obs.size() > 2 && !d.obs[2].hdr.null) || (d.obs.size() > 3 && !d.obs[3].hdr.null);
@@ -247,6 +248,7 @@ struct C12 : Scenario {
 			narrowed->scenario = "single";
 			narrowed->patches.clear();
 			if (q) narrowed->patches.push_back(*q);
+			if (afail >= 0) narrowed->seti("afail", afail);
 			narrowed->tasks[0].trunc = trunc;
 			narrowed->tasks[0].kind = t.kind;
 		};
@@ -285,7 +287,7 @@ struct C12 : Scenario {
 			static const char *kinds[] = {"FILE_SEEK", "FILE_PIPE", "FILE_HALFSEEK", "CB_SKIP", "CB_NOSKIP"};
 			int ki = 0;
 			for (int i = 0; i < 5; ++i) if (t0.kind == kinds[i]) ki = i;
-			eval(p, a.bytes, hs, ki, "replay", res, nullptr, nullptr, t0.trunc, nfail, npass, acc);
+			eval(p, a.bytes, hs, ki, "replay", res, nullptr, nullptr, t0.trunc, nfail, npass, acc, p.geti("afail", -1));
 			res.nontrivial = true;
 			res.trace = finish_trace();
 			return res;
@@ -345,6 +347,33 @@ struct C12 : Scenario {
 			}
 		}
 		count("fault.D-FIELD", evals - before);
+		// (4) A-FAIL on top of a stored-byte fault: a header that fails its own rules stays rejected when one of the
+		// allocations made while it is parsed fails (a parser that stops early must not skip the checks that follow).
+		// Faults: one wrong bit in the checksum byte and in up to 32 bytes spread over the rest of the header (name,
+		// extended headers, common-CRC header), each with every allocation index 0..9 failing.
+		before = evals;
+		{
+			std::vector<size_t> at;
+			if (L.fields.count("csum")) at.push_back(L.fields.at("csum").off);
+			for (size_t pos = 20; pos < L.hdr_len; ++pos) at.push_back(pos);
+			// keep the sweep affordable: at most 32 positions, spread over the candidates (offset by the run index)
+			size_t stride = at.size() > 32 ? (at.size() + 31) / 32 : 1;
+			if (stride > 1 && at.size() > 1) std::rotate(at.begin() + 1, at.begin() + 1 + (long) (p.run % stride), at.end());
+			for (size_t ai = 0; ai < at.size() && res.ok; ai += stride) {
+				size_t pos = at[ai];
+				if (pos >= L.hdr_len) continue;
+				Bytes w = a.bytes;
+				w[hs + pos] ^= (uint8_t)(1u << (pos % 8));
+				Patch q; q.member = 1; q.off = (uint32_t) pos; q.op = '='; q.val = {w[hs + pos]};
+				if (integrity_fail(w.data() + hs, w.size() - hs).empty()) continue;
+				for (int64_t k = 0; k < 10 && res.ok; ++k) {
+					++evals;
+					eval(p, w, hs, ki, strf("byte %zu bit %zu flipped, allocation #%lld fails", pos, pos % 8, (long long) k), res, narrowed, &q, -1, nfail, npass, acc, k);
+				}
+				++ki;
+			}
+		}
+		count("fault.A-FAIL", evals - before);
 		g_sim.tracing = true;
 		g_sim.counters["evals"] = evals;
 		count("probe.checker_says_fail", nfail);
